@@ -1263,6 +1263,9 @@ func (g *pgGen) step() {
 	switch {
 	case w < 8:
 		k := r.Intn(len(pgRoSizes))
+		if g.o.bigIO && r.Intn(10) < 6 {
+			k = 4 + r.Intn(2)
+		}
 		g.open("OPEN(existing)", fxpOpen, fmt.Sprintf("ro/f%d", k), 1, "r", k, pgRoSizes[k], true)
 	case w < 11:
 		g.open("OPEN(missing)", fxpOpen, "ro/nope", 1, "", 0, 0, false)
